@@ -306,7 +306,7 @@ fn classify(sh: &Shm, status: i32, timed_out: bool) -> RunResult {
     if sh.expect_set == 1 {
         if exited && code == sh.expect_exit {
             if sh.atexit_ran != 0 {
-                return mk(viol("C15".into(), "exit-hooks-ran", format!("the conditional shutdown terminated the process with status {} but exit-time hooks were run (atexit marker present); context: {}", code, sigs(&sh.msg))));
+                return mk(viol("C15".into(), "exit-hooks-ran", format!("the conditional shutdown terminated the process with status {} but exit-time hooks were run ({} marker present); context: {}", code, if sh.atexit_ran == 2 { "at_quick_exit" } else { "atexit" }, sigs(&sh.msg))));
             }
             return mk(Verdict::Ok);
         }
